@@ -435,6 +435,8 @@ var residueWrites = []string{
 	"rs = make(struct{A interface})\nrs.A = %s\nrp = &rs.A\n*rp = %s",
 	"rv = %s\nrp = &rv\nrpp = &rp\n**rpp = %s",
 	"var rv = %s\nrp = &rv\n*rp = %s\nrv",
+	// the value a failed lookup leaves behind (the error caught, the function falling off its end)
+	"func rf() { try { undefinedname } catch { } }\nrv = rf()\nrp = &rv\n*rp = %s", "func rf() { try { undefinedname } catch { } }\nrl = [rf()]\nrp = &rl[0]\n*rp = %s\nrv = rf()\nrv += %s",
 	// values made by make: a struct with a map field is written into; a map is indexed by a key that is held
 	// as a list element, first an unhashable one (the error is caught), then others
 	"rs = make(struct{M map[string]int64, N int64})\nrs.M[\"k\"] = 5\nrs.N = 6\nrx = %s",
@@ -470,12 +472,13 @@ const residueCanary = `func nothing() { }
 func one() { return 1 }
 cx = 0
 cx++
+func lost() { try { undefinedname } catch { } }
 cs = make(struct{M map[string]int64, N int64})
 cl = ["s", 7]
 cm = {}
 cm[cl[0]] = 1
 cm[cl[1]] = 2
-[nil, true, false, 0, 1, -1, 2 + 2, 2 * 3, 4095 + 0, "" + "", "a" + "b", nothing(), nil ?? 3, [nil][0], {"k": nil}.k, len("abc"), one(), cx, 1 == 1, !true, (true ? nil : 0), len(cs.M), cs.N, len(cm), cm.s, {cl[0]: 3}.s]`
+[nil, true, false, 0, 1, -1, 2 + 2, 2 * 3, 4095 + 0, "" + "", "a" + "b", nothing(), nil ?? 3, [nil][0], {"k": nil}.k, len("abc"), one(), cx, 1 == 1, !true, (true ? nil : 0), len(cs.M), cs.N, len(cm), cm.s, {cl[0]: 3}.s, lost()]`
 
 var residueBaseline string
 
